@@ -431,6 +431,19 @@ theorem nondeterminism_inventory_covered :
      Paloma.Gen.Nondet.randomUses.all (fun s => randJustified.contains s.fn) &&
      Paloma.Gen.Nondet.assignerReceiver == "value") = true := by decide
 
+/-- **long_lived_objects_keep_no_run_time_state.** Keepers, msg / query servers, modules, ante decorators, wasm
+plugins and proposal handlers are created once per `app.New` and live until the process ends.  In the current
+source the only methods that write through such a receiver (a field of a pointer receiver; for any receiver an
+element of a map or a field behind a pointer) are the three wiring hooks below, and their only caller is
+`app.New`.  A memo table or cache added to a keeper and filled while transactions, blocks or queries run — which
+survives a rolled-back transaction and disappears at a restart — is a new row and makes this `decide` fail. -/
+theorem long_lived_objects_keep_no_run_time_state :
+    (Paloma.Gen.Nondet.receiverWrites.map fun r => (r.1, r.2.2.1, r.2.2.2)) =
+      [("x/consensus/keeper.Keeper.AddMessageConsensusAttestedListener", "k.onMessageAttestedListeners", ["app.New"]),
+       ("x/consensus/keeper.Keeper.LateInject", "k.evmKeeper", ["app.New"]),
+       ("x/evm/keeper.Keeper.AddMessageConsensusAttestedListener", "k.onMessageAttestedListeners", ["app.New"])] := by
+  decide
+
 /-! ### non-vacuity -/
 example : [3, 1, 2].foldl min 9 = [2, 3, 1].foldl min 9 := by decide
 open Paloma.Queue in
